@@ -1,1 +1,145 @@
-From RxVerif Require Import Base.Prelude Ops.Machine Ops.Multi Ops.Timed.
+(* C15 -- time-shifting operators move notifications by the requested time.
+
+   Machines: Ops/Timed.v (written from reactivex/operators/_delay.py,
+   _delaysubscription.py, _delaywithmapper.py, _timestamp.py, _timeinterval.py),
+   tied to the implementation by the K2 correspondence on delivered input
+   sequences (harness/props/C15.py).  The theorems below are about the CLOSED
+   WORLD of Ops/TimedSim.v: [simulate m t0 ext] subscribes at clock t0, delivers
+   the external events [ext] at their instants and fires every timer the machine
+   requests exactly at request time + delay (at equal instants: source
+   notifications first, then timers in scheduling order -- the policy of the
+   proxy scheduler the implementation is driven with).  [timed_emits] is the
+   list of (clock reading, notification) delivered downstream.  Time is integer
+   milliseconds; [tevents tl tm] is a conforming timed source: elements [tl] =
+   [(t_i, x_i)], then the terminal [tm]. *)
+From RxVerif Require Import Base.Prelude Ops.Machine Ops.Multi Ops.MultiFacts Ops.Timed Ops.TimedSim
+  Ops.TimedFacts Ops.TimedWindowFacts Ops.TimedDelayFacts Ops.TimedSubFacts Ops.TimedMapperFacts.
+
+(* the closed world is a run of the machine: the simulator only chooses the next
+   input, the runner of Ops/Multi.v (the one compared with the implementation) handles it *)
+Theorem C15_simulation_is_a_run : forall A B (m : machine A B) fuel t0 ext,
+  fst (run m (sim_inputs (snd (simulate_fuel m fuel t0 ext))))
+  = map (fun o => (0%nat, o)) (fst (simulate_fuel m fuel t0 ext)) ++ tag_from 1 (snd (simulate_fuel m fuel t0 ext)).
+Proof. exact @sim_is_run. Qed.
+Print Assumptions C15_simulation_is_a_run.
+
+(* delay(d), d >= 0: every element and the completion exactly d later, in order
+   (bursts at one instant keep their order); an error immediately, the elements
+   still pending (due at or after the error instant) dropped *)
+Theorem C15_delay_spec : forall A d t0 (tl : list (Z * A)) tm,
+  0 <= d -> tsorted (tevents tl tm) -> Forall (fun e => t0 <= fst e) (tevents tl tm) ->
+  timed_emits t0 (simulate (x_delay d) t0 (ext_of (tevents tl tm)))
+  = match tm with
+    | TTDone T => shift d tl ++ [(T + d, Done)]
+    | TTErr T c => filter (fun n => fst n <? T) (shift d tl) ++ [(T, Err c)]
+    | TTNever => shift d tl
+    end.
+Proof. exact @delay_spec. Qed.
+Print Assumptions C15_delay_spec.
+
+(* the same for ANY time-sorted notification sequence of the source (also
+   non-conforming ones): the walk [dspec] with the queue of pending notifications *)
+Theorem C15_delay_walk : forall A d t0 (es : list (Z * ev A)),
+  0 <= d -> tsorted es -> Forall (fun e => t0 <= fst e) es ->
+  timed_emits t0 (simulate (x_delay d) t0 (ext_of es)) = dspec d [] es.
+Proof. exact @delay_sim_spec. Qed.
+Print Assumptions C15_delay_walk.
+
+Theorem C15_delay_zero : forall A t0 (tl : list (Z * A)) T,
+  tsorted (tevents tl (TTDone T)) -> Forall (fun e => t0 <= fst e) (tevents tl (TTDone T)) ->
+  timed_emits t0 (simulate (x_delay 0) t0 (ext_of (tevents tl (TTDone T)))) = tevents tl (TTDone T).
+Proof. exact @delay_zero. Qed.
+Print Assumptions C15_delay_zero.
+
+(* an absolute (datetime) due time is the delay [due - t0] fixed at subscription *)
+Theorem C15_delay_absolute : forall A ts t0 (tl : list (Z * A)) tm,
+  0 <= tdelay ts t0 -> tsorted (tevents tl tm) -> Forall (fun e => t0 <= fst e) (tevents tl tm) ->
+  timed_emits t0 (simulate (x_delay_at ts t0) t0 (ext_of (tevents tl tm))) = delay_out (tdelay ts t0) tl tm.
+Proof. exact @delay_at_spec. Qed.
+Print Assumptions C15_delay_absolute.
+
+(* delay_subscription: the first thing observed is the subscription of the
+   source, exactly at the due instant t0 + max(0, delay); every notification the
+   (hot) source sent up to and at that instant found nobody listening *)
+Theorem C15_delay_subscription_subscribes_at : forall A ts t0 (es : list (Z * ev A)),
+  exists rest,
+    snd (simulate (x_delay_subscription ts t0) t0 (ext_of es))
+    = map (fun te => (fst te, ISrc 0%nat (snd te), @nil (obs A))) (take_upto (due_at ts t0) es)
+      ++ (due_at ts t0, ITick 0%nat, [@OSub A 0%nat]) :: rest.
+Proof. exact @delay_subscription_subscribes_at. Qed.
+Print Assumptions C15_delay_subscription_subscribes_at.
+
+(* ... and afterwards the source is mirrored: the elements after the subscription
+   instant at their own instants, then the source's terminal (elements arriving
+   at the very instant of an error are dropped with it) *)
+Theorem C15_delay_subscription_spec : forall A ts t0 (tl : list (Z * A)) tm,
+  tsorted (tevents tl tm) ->
+  timed_emits t0 (simulate (x_delay_subscription ts t0) t0 (ext_of (tevents tl tm)))
+  = ds_outq (own (after (due_at ts t0) tl)) (term_after (due_at ts t0) tm).
+Proof. exact @delay_subscription_spec. Qed.
+Print Assumptions C15_delay_subscription_spec.
+
+(* delay_with_mapper, step level (the instants at which the delay observables
+   notify are inputs): an element is delivered at the first on_next OR
+   on_completed of its delay observable and only then; errors end the sequence.
+   PARTIAL: no closed form over absolute time (the delay observables are
+   arbitrary); whole-run behaviour is covered by the K2 correspondence. *)
+Theorem C15_delay_with_mapper_step_partial : forall A has_sub (mapper : A -> nat -> res unit) (s : dwm_st) now,
+  let m := x_delay_with_mapper has_sub mapper in
+  (forall k e x, dwm_special has_sub k = false -> lookup k (dw_delays s) = Some x -> not_err e ->
+     emitted_cmds (snd (fst (x_step m s now (ISrc k e)))) = [x]
+     /\ dw_delays (fst (fst (x_step m s now (ISrc k e)))) = remove_key k (dw_delays s)
+     /\ snd (x_step m s now (ISrc k e))
+        = if dw_at_end s && Nat.eqb (length (remove_key k (dw_delays s))) 0 then Complete else Cont)
+  /\ (forall i x, In x (emitted_cmds (snd (fst (x_step m s now i)))) ->
+        exists k e, i = ISrc k e /\ dwm_special has_sub k = false /\ not_err e /\ lookup k (dw_delays s) = Some x)
+  /\ (forall x u, mapper x (dw_cnt s) = Ok u ->
+        x_step m s now (ISrc 0%nat (Next x))
+        = (DwmSt (S (dw_cnt s)) (dw_at_end s)
+                 (dw_delays s ++ [(((if has_sub then 2 else 1) + dw_cnt s)%nat, x)]),
+           [CSub ((if has_sub then 2 else 1) + dw_cnt s)%nat], Cont))
+  /\ (forall k c, snd (x_step m s now (ISrc k (Err c))) = Fail c
+                  /\ emitted_cmds (snd (fst (x_step m s now (ISrc k (Err c))))) = [])
+  /\ (forall x c, mapper x (dw_cnt s) = Raise c -> snd (x_step m s now (ISrc 0%nat (Next x))) = Fail c).
+Proof. exact @delay_with_mapper_step_partial. Qed.
+Print Assumptions C15_delay_with_mapper_step_partial.
+
+(* timestamp / time_interval attach the clock reading / the time since the
+   previous element or the subscription; no hypothesis on the instants *)
+Theorem C15_timestamp_spec : forall A t0 (tl : list (Z * A)) tm,
+  timed_emits t0 (simulate x_timestamp t0 (ext_of (tevents tl tm)))
+  = map (fun tx => (fst tx, Next (snd tx, fst tx))) tl ++ term_ev tm.
+Proof. exact @timestamp_spec. Qed.
+Print Assumptions C15_timestamp_spec.
+
+Theorem C15_time_interval_spec : forall A t0 (tl : list (Z * A)) tm,
+  timed_emits t0 (simulate (x_time_interval t0) t0 (ext_of (tevents tl tm)))
+  = intervals t0 tl ++ term_ev tm.
+Proof. exact @time_interval_spec. Qed.
+Print Assumptions C15_time_interval_spec.
+
+(* ---- non-vacuity: the hypotheses are satisfiable, the closed forms compute --- *)
+Example C15_ex_timeline_sorted :
+  tsorted (tevents [(0, 1); (0, 2); (5, 0)] (TTDone 20))
+  /\ Forall (fun e : Z * ev Z => 0 <= fst e) (tevents [(0, 1); (0, 2); (5, 0)] (TTDone 20)).
+Proof. cbn. repeat split; repeat constructor; cbn; lia. Qed.
+
+Example C15_ex_delay :
+  timed_emits 0 (simulate (x_delay 10) 0 (ext_of (tevents [(0, 1); (0, 2); (5, 0)] (TTDone 20))))
+  = [(10, Next 1); (10, Next 2); (15, Next 0); (30, Done)].
+Proof. vm_compute. reflexivity. Qed.
+
+Example C15_ex_delay_error_drops_pending :
+  timed_emits 0 (simulate (x_delay 10) 0 (ext_of (tevents [(0, 1); (5, 2)] (TTErr 15 7))))
+  = [(10, Next 1); (15, Err 7)].
+Proof. vm_compute. reflexivity. Qed.
+
+Example C15_ex_delay_subscription :
+  timed_emits 0 (simulate (x_delay_subscription (Rel 10) 0) 0 (ext_of (tevents [(5, 1); (10, 2); (15, 3); (15, 0)] (TTDone 15))))
+  = [(15, Next 3); (15, Next 0); (15, Done)].
+Proof. vm_compute. reflexivity. Qed.
+
+Example C15_ex_time_interval :
+  timed_emits 5 (simulate (x_time_interval 5) 5 (ext_of (tevents [(5, 1); (20, 0)] (TTDone 20))))
+  = [(5, Next (1, 0)); (20, Next (0, 15)); (20, Done)].
+Proof. vm_compute. reflexivity. Qed.
